@@ -294,8 +294,12 @@ class MetadataBase(object):
         # destination is opened, so a failure does not truncate the file
         parser = self._get_parser()
         self.serialize(parser)
+        # ... and render the whole text first: values no validator looks at
+        # may still be refused by the encoder
+        text = six.StringIO()
+        self.build_file(parser, text)
         with open_file_obj(f, "w") as f:
-            self.build_file(parser, f)
+            f.write(text.getvalue())
 
     def dumps(self):
         """
